@@ -164,7 +164,7 @@ def at_scale_case(ctx, g, rng):
 
 
 def run_case(ctx, g, rng):
-    if g % 151 == 151 - 1:
+    if g % (151 if ctx.tier == "quick" else 1213) == 150:
         return at_scale_case(ctx, g, rng)
     api, S = ctx.api, probe.S
     C = api.Converter
